@@ -89,10 +89,19 @@ class ThrRunner:
         self.cells = []
         self.cur = None  # current exec context
         self.handler = _CountHandler()
-        self.logger = logging.getLogger(f"verif.{id(self)}")
-        self.logger.handlers = [self.handler]
-        self.logger.propagate = False
-        self.logger.setLevel(logging.DEBUG)
+        if scn.get("user_logger", True):
+            self.logger = logging.getLogger(f"verif.{id(self)}")
+            self.logger.handlers = [self.handler]
+            self.logger.propagate = False
+            self.logger.setLevel(logging.DEBUG)
+            self._logger_arg = self.logger
+        else:
+            # default logger of the package ("scheduler"): observe it with our handler
+            self.logger = logging.getLogger("scheduler")
+            self.logger.handlers = [self.handler]
+            self.logger.propagate = False
+            self.logger.setLevel(logging.DEBUG)
+            self._logger_arg = None
         if scn.get("prio", 0) == 2:
             # arbitrary deterministic user function: a table key -> value (default 0), optionally
             # mixed with the lateness so that values change between calls
@@ -124,7 +133,7 @@ class ThrRunner:
             max_exec=scn.get("max_exec", 0),
             priority_function=prio,
             n_threads=scn.get("n_threads", 1),
-            logger=self.logger,
+            logger=self._logger_arg,
         )
         # jobs handed to the constructor: leading ops flagged "ctor" are created directly as Job
         # objects (at clock0) and passed as Scheduler(jobs=...)
@@ -151,6 +160,18 @@ class ThrRunner:
             self.sched = Scheduler(**kw)
         self.ctor_pos = 0
 
+    def exc_class(self, key):
+        import queue as _q
+
+        from scheduler.error import SchedulerError
+
+        class UserError(RuntimeError):
+            pass
+
+        name = (self.scn.get("exc") or {}).get(str(key), "ValueError")
+        return {"Exception": Exception, "ValueError": ValueError, "UserError": UserError, "SchedulerError": SchedulerError,
+                "StopIteration": StopIteration, "QueueEmpty": _q.Empty, "KeyError": KeyError}[name]
+
     # ------------------------------------------------------------ callbacks
     def make_cb(self, cell):
         def cb(*args, **kwargs):
@@ -163,7 +184,7 @@ class ThrRunner:
                 for c in (cur["scripts"].get(str(key)) or cur["scripts"].get(key) or []):
                     self.run_cop(c)
                 if key in cur["raises"]:
-                    raise cell.get("exc", ValueError)("scripted failure")
+                    raise self.exc_class(key)("scripted failure")
 
         cb.__qualname__ = "cb"
         return cb
@@ -201,6 +222,17 @@ class ThrRunner:
         cell["payload_id"] = o.get("_payload_id") or (
             lambda seen: seen[0][0] if (len(seen[0]) == 1 and seen[1] == {"p": seen[0][0]}) else 10**9
         )
+        if self.scn.get("c19"):
+            ash, ksh = o.get("argshape", "one"), o.get("kwshape", "one")
+            args = {"none": None, "empty": (), "one": (payload,), "many": (payload, "x", 3.5, None, b"b"),
+                    "nested": (payload, [1, [2, 3]], {"k": (4, 5)})}[ash]
+            kwargs = {"none": None, "empty": {}, "one": {"p": payload},
+                      "many": {"p": payload, "a": 1, "b": "two", "c": None, "d": (1, 2), "e": 2.5}}[ksh]
+            want_args = () if args is None else tuple(args)
+            want_kwargs = {} if kwargs is None else dict(kwargs)
+            cell["orig_kwargs"] = kwargs
+            # payload id seen = own id iff exactly the original arguments arrived, else a sentinel
+            cell["payload_id"] = lambda seen, wa=want_args, wk=want_kwargs, pid=payload: pid if (seen[0] == wa and seen[1] == wk) else 10**9
         cb = self.make_cb(cell)
         kw = {}
         if args is not None:
@@ -213,6 +245,7 @@ class ThrRunner:
             fr = Fraction(w[0], w[1])
             weight = int(fr) if fr.denominator == 1 else float(fr)
         tags = py_tags(o.get("tags"), o.get("tagkind"))
+        cell["orig_tags"] = tags
         if call == "once":
             if tags is not None:
                 kw["tags"] = tags
@@ -225,6 +258,14 @@ class ThrRunner:
             kw["weight"] = weight
             if o.get("start") is not None:
                 kw["start"] = from_loc(*o["start"])
+            if o.get("_relstart") is not None and o.get("start") is None:
+                d, so = o["_relstart"]
+                o["start"] = [clock + d + (so or 0), so]
+            if o.get("start") is not None and "start" not in kw:
+                kw["start"] = from_loc(*o["start"])
+            if o.get("_relstop") is not None and o.get("stop") is None:
+                tzo = self.scn.get("tz")
+                o["stop"] = [clock + o["_relstop"] + (tzo or 0), tzo]
             if o.get("stop") is not None:
                 kw["stop"] = from_loc(*o["stop"])
             if not o.get("delay", True):
@@ -318,14 +359,37 @@ class ThrRunner:
                 self.sched.delete_job(self.created[o["key"]])
                 obs["res"] = ("u",)
             elif k == "dtags":
-                n = self.sched.delete_jobs(py_tags(o.get("tags"), o.get("qkind", "set")), o.get("any", False))
+                n = self.sched.delete_jobs(py_tags(o.get("tags"), o.get("qkind", "set")), bool(o.get("any", False)))
                 obs["res"] = ("c", n)
             elif k == "get":
                 r = self.sched.get_jobs(py_tags(o.get("tags"), o.get("qkind", "set")), o.get("any", False))
                 obs["res"] = ("s", sorted(self.key_of[id(j)] for j in r))
+                if self.scn.get("mutate_snapshots"):
+                    r.clear()
+                    r.add(object())
+            elif k == "mutate":
+                cell = self.cells[o["key"]] if o["key"] < len(self.cells) else None
+                if cell is not None:
+                    what = o.get("what", "all")
+                    if what in ("kwargs", "all") and isinstance(cell.get("orig_kwargs"), dict):
+                        d = cell["orig_kwargs"]
+                        d["injected"] = 1
+                        d.pop("p", None)
+                        d["a"] = "overwritten"
+                    if what in ("tags", "all") and isinstance(cell.get("orig_tags"), set):
+                        cell["orig_tags"].clear()
+                        cell["orig_tags"].add("t9")
+                    if what in ("returned_tags", "all"):
+                        t = cell["job"].tags
+                        t.clear()
+                        t.add("t8")
+                obs["res"] = ("u",)
             elif k == "jobs":
                 r = self.sched.jobs
                 obs["res"] = ("s", sorted(self.key_of[id(j)] for j in r))
+                if self.scn.get("mutate_snapshots"):
+                    r.clear()
+                    r.add(object())
             else:
                 raise ValueError(k)
         except Exception as e:  # noqa: BLE001
@@ -399,7 +463,9 @@ def run_scenario(scn):
         if not obs["exact"]:
             obs_list.append({"truncated": "float-inexact"})
             break
+        obs_list.append(obs)
+        if o["op"] == "mutate":
+            continue
         lines.append(core.s_op(o, order=obs.get("order")))
         impl.append(render(obs))
-        obs_list.append(obs)
     return lines, impl, obs_list
